@@ -131,6 +131,16 @@ BalkanDenote(b) ==
      [caps |-> [j \in 1..b.blist[k].NCAPS |-> MkCap(b.bcaps[b.blist[k].ICAP + j].X, b.bcaps[b.blist[k].ICAP + j].CM)],
       use |-> 0..(b.blist[k].NCAPS - 1)]]
 
+(* Remark (values only).  Every operator above is a function of the VALUES of its arguments: *)
+(* a point, a centre, a cm, an index list or a use-mask has no other attribute in this        *)
+(* specification.  The outcome demanded of the code is therefore the same whatever the memory *)
+(* layout of the arrays that carry these values (read-only, strided / Fortran-ordered views,  *)
+(* 0-d arrays for scalars, byte-swapped data as it comes out of a FITS file) and whatever the *)
+(* decimal spelling of a number in a .ply line (5e-05, 5E-05, +.00005, trailing ".", blanks   *)
+(* or tabs between the fields): PlyForm fixes the numbers on a line, not their spelling.      *)
+(* The harness rotates layouts and spellings over the cases; the expected value of a case is  *)
+(* TLC's value for c and does not mention them (MC_Mangle: exp is a function of c alone).     *)
+
 (* ---- laws ---- *)
 EmptyContainsAll(poly, p, n) == UsedCaps(poly, n) = {} => InPolygon(poly, p, n)
 FirstNIgnoresRest(poly, p, n) == InPolygon(poly, p, n) = InPolygon(Truncate(poly, n), p, 0)
